@@ -38,6 +38,7 @@ type MemSock struct {
 	once     sync.Once
 	failSend bool
 	failNext string
+	offering bool
 	Linger   time.Duration // see pump
 	pumpDone chan struct{}
 }
@@ -66,6 +67,7 @@ func (s *MemSock) pump() {
 			f = s.rxq[0]
 			s.rxq = s.rxq[1:]
 		}
+		s.offering = have // (the frame the pump holds until its hand-off still counts as pending)
 		s.mu.Unlock()
 		if !have {
 			select {
@@ -146,6 +148,9 @@ func (s *MemSock) Arrive(f Frame) {
 func (s *MemSock) Pending() int {
 	s.mu.Lock()
 	defer s.mu.Unlock()
+	if s.offering {
+		return len(s.rxq) + 1
+	}
 	return len(s.rxq)
 }
 
